@@ -28,7 +28,10 @@ def run(ctx):
                    axioms=N.STAT_AXIOMS, depth=12, what='a statistics query')
     sinks = ctx.extra['numeric']['R9.1']['sinks']
     ctx.floor('R9.1', 'arithmetic sinks analysed', sinks, 25)
+    ctx.rule('R9.6', 'the axiom m2 >= 0 is justified structurally: Tally.register moves the mean by one convex step and adds (x-old)*(x-new) to m2')
+    N.convex_update(ctx, 'R9.6', {'statistics', 'utils'}, 'Tally', '_m1', '_m2', 'value', N.STAT_AXIOMS)
     T.rejected_input(ctx, 'R9.2', ['Counter', 'Tally', 'EventBasedCounter', 'EventBasedTally', 'SimCounter', 'SimTally'])
+    T.coercion_before_write(ctx, 'R9.2b', ['Tally'])
     T.reset_completeness(ctx, 'R9.3', ['Counter', 'Tally', 'EventBasedCounter', 'EventBasedTally', 'SimCounter', 'SimTally'])
     T.counter_shape(ctx)
     ctx.rule('R9.5', 'NaN exactly when undefined: NaN-structure of every getter for 0,1,2,3,4,>=5 observations equals the documented thresholds')
